@@ -268,7 +268,7 @@ class Verifier:
                 if isinstance(result, E.IterV): result = ex.materialize(result)
                 rty = w.ty(c.returns)
                 if isinstance(result, V):
-                    try: result = coerce(result, rty)
+                    try: result = ex.co(result, rty)
                     except Unsupported as e: raise Unsupported('return value of %s: %s' % (c.key, e))
                 post_env['result'] = result
                 for k, e in enumerate(c.ensures):
